@@ -215,7 +215,6 @@ def handle (toks : List String) : String :=
       match getVlq (bitsOfBytes bs) with
       | .ok x rest => s!"ok:{x}:{rest.length / 8}"
       | .eof => "none"
-      | .tooLong => "PANIC"
     | none => "bad-op"
   | ["zz", v] =>
     match parseInt v with
